@@ -194,6 +194,8 @@ def run_params(rng, klen, ref_lines, tractable):
     """Draw the parameters of one run (JSON-able)."""
     w = rng.choice(WORKERS)
     workers = klen + 3 if w == "klen+3" else w
+    if rng.random() < 0.12:
+        workers = rng.randint(1, max(4, min(2 * klen, 40)))  # any other count (the property says "any number")
     if klen >= 50:
         threshold = None if rng.random() < 0.8 else 10 ** 9
     else:
